@@ -92,6 +92,33 @@ def templates():
         k[0] = 0
         T.append(P + [("set", "g", m("mr", V("plus"))),
                       fin(("reduce", m("mt", ("post", "iter", ("array", [m("mi", lit(1)), m("mi", lit(2))]))), m("mi", lit(10)), V("g")))])
+        # reduce with effects in ALL three operands: iterator, then initial value, then function expression
+        k[0] = 0
+        T.append(P + [fin(("reduce", m("mt", ("post", "iter", ("array", [lit(1), lit(2)]))), m("mi", lit(10)), m("mr", V("plus"))))])
+        # ... a failing initial value is met before the function expression is evaluated
+        k[0] = 0
+        T.append(P + [("set", "r", ("reduce", m("mt", ("post", "iter", ("array", [lit(1)]))), m("mi", ("bin", "div", lit(1), ("call", V("hi"), [I(0)]))),
+                                    m("mr", V("plus")))), fin(V("r"))])
+        # ... and the initial value may depend on a cell the function expression overwrites
+        k[0] = 0
+        T.append(P + [("set", "c", ("mut", INT, I(5))),
+                      ("fndecl", "mkf", [], fn((INT, INT), INT), [("assign", "set", V("c"), I(1000)), ("return", V("plus"))]),
+                      fin(("reduce", ("post", "iter", ("array", [lit(1), lit(2)])), ("pre", "deref", V("c")), ("call", V("mkf"), [])))])
+        # map / filter / partition: iterator operand, then function operand (both once, at creation)
+        for bop, fnm in (("map", "inc"), ("filter", "pos"), ("partition", "pos")):
+            k[0] = 0
+            mk = "mg" if fnm == "inc" else "mp"
+            e = ("bin", bop, m("mt", ("post", "iter", ("array", [lit(1), lit(2)]))), m(mk, V(fnm)))
+            T.append(P + [("fndecl", "pos", [("v", INT)], BOOL, [("return", ("bin", "gt", V("v"), I(1)))]),
+                          ("fndecl", "mp", [("k", INT), ("v", fn((INT,), BOOL))], fn((INT,), BOOL),
+                           [("assign", "add", V("log"), ("array", [V("k")])), ("return", V("v"))]),
+                          fin(e if bop == "partition" else ("post", "collect", e))])
+        # type filter and the postfix reducers evaluate their operand once
+        k[0] = 0
+        T.append(P + [fin(("post", "collect", ("tfilter", m("mt", ("post", "iter", ("array", [lit(1), lit(2)]))), INT)))])
+        for pop in ("sum", "product", "bitand", "bitor", "collect"):
+            k[0] = 0
+            T.append(P + [fin(("post", pop, m("mt", ("post", "iter", ("array", [m("mi", lit(3)), m("mi", lit(5))])))))])
         # if: condition, then only the chosen branch
         for c in (True, False):
             k[0] = 0
